@@ -147,6 +147,7 @@ def run(ck):
     rescale_layer(ck, 60 if q else 1500)
     refused_inside_session_layer(ck, 20 if q else 400)
     refused_rescale_layer(ck, 12 if q else 240)
+    trailing_bytes_layer(ck, 12 if q else 240)
     encoding_errors_layer(ck, 8 if q else 100)
     compressed_layer(ck, 25 if q else 500)
     out = ck.driver(lines)
@@ -339,6 +340,39 @@ def refused_rescale_layer(ck, n_cases):
                 desc = f"reading it raises {type(e).__name__}"
             ck.fail(f"session on a {n0}-point file left by the refusal (OverflowError) of a chunk after {inp['accepted']} accepted points: the file differs "
                     f"from the one-shot file of what was accepted (first difference at byte {k0}; {desc})", inp)
+
+
+def trailing_bytes_layer(ck, n_cases):
+    """the original file carries bytes after its last point record that are not EVLRs (padding written by other software, the records an
+    interrupted session stored without counting them): the appended points follow the last COUNTED record"""
+    import laspy
+    for ci in range(n_cases):
+        minor, fmt = fio.PAIRS[(3 * ci + 1) % len(fio.PAIRS)]
+        n0 = [0, 2, 5][ci % 3]
+        las = fio.make_las(ck.rng, minor, fmt, n0)
+        size = las.header.point_format.size
+        extra = fio.raw_records(ck.rng, size, ck.rng.choice([1, 3]))
+        junk_len = [7, size, len(extra) + 11, 2 * len(extra)][ci % 4]
+        junk = bytes(ck.rng.getrandbits(8) for _ in range(junk_len))
+        b0 = io.BytesIO()
+        las.write(b0)
+        data = b0.getvalue() + junk
+        inp = {"kind": "trailing_bytes", "minor": minor, "fmt": fmt, "n0": n0, "appended": len(extra) // size, "trailing_bytes": junk_len, "record_size": size}
+        ck.case(("trailing", minor, fmt, n0, junk_len, las.points.array.tobytes(), extra), nontrivial=True)
+        ck.count("original_with_trailing_bytes")
+        try:
+            after = append_session(data, [rec_of(las, extra)])
+            back = laspy.read(io.BytesIO(after))
+        except Exception as e:
+            ck.fail(f"appending to a file with {junk_len} bytes after its last point record raised {type(e).__name__}: {e}", inp)
+            continue
+        want = las.points.array.tobytes() + extra
+        if back.points.array.tobytes() != want or back.header.point_count != n0 + len(extra) // size:
+            off = las.header.offset_to_point_data
+            where = after.find(extra, off)
+            ck.fail(f"appending {len(extra) // size} points to a {n0}-point file with {junk_len} bytes after its last record: the file reads {len(back.points)} points that are "
+                    f"{'' if back.points.array.tobytes() == want else 'not '}the original points followed by the appended ones (the appended records start at byte "
+                    f"{where}, the last counted record ends at byte {off + n0 * size})", inp)
 
 
 def rescale_layer(ck, n_cases):
